@@ -226,7 +226,7 @@ impl Scenario for C16 {
     fn jobs(&self, tier: Tier) -> u64 {
         match tier {
             Tier::Quick => 8 + 200,
-            Tier::Thorough => 400 + 20_000,
+            Tier::Thorough => 200 + 8_000,
         }
     }
     fn rule_text(&self) -> &'static str {
@@ -261,7 +261,7 @@ impl Scenario for C16 {
     fn run_job(&self, seed: u64, tier: Tier, idx: u64, sink: &mut Sink) {
         let nbase = match tier {
             Tier::Quick => 8,
-            Tier::Thorough => 400,
+            Tier::Thorough => 200,
         };
         if idx >= nbase {
             let per_job = 100;
